@@ -632,7 +632,9 @@ pub fn run(tier: &str, seed: u64) -> i32 {
                 let (g, t) = crate::checks::c07::rule_forms()[s.rule.unwrap()];
                 let names: Vec<&str> = g.trim_matches(|c| c == '<' || c == '>').split(',').map(|x| x.trim()).filter(|x| !x.is_empty()).collect();
                 let toks: Vec<&str> = t.split(|c: char| !(c.is_alphanumeric() || c == '_')).collect();
-                !s.second && names.iter().enumerate().all(|(i, n)| i < arity || !toks.contains(n))
+                // (the relative fixed argument `m::B` of C07's last rule form names nothing the module or the farm's
+                // stub crates define: C07's concern, not closedness)
+                !s.second && !t.contains(" m::") && names.iter().enumerate().all(|(i, n)| i < arity || !toks.contains(n))
             })
             .map(|(_, s)| Case::new(RegSrc::Prog(s.program()), s.spec(), "D-subst"))
             .collect();
